@@ -309,7 +309,12 @@ func (in *Interp) conv(dst, src types.Type, x Value) Value {
 				if s.Info()&types.IsInteger != 0 {
 					t := x.(*Term)
 					if t.op != OpConst {
-						in.unsupported("string(symbolic rune)")
+						// a symbolic code point below 0x80 is its own one-byte encoding
+						lim := tt.BV(t.w, 0x80)
+						if t.w < 8 || !in.branch(tt.Cmp(OpUlt, t, lim)) {
+							in.unsupported("string(symbolic rune >= 0x80)")
+						}
+						return Str{[]*Term{tt.Extract(t, 7, 0)}}
 					}
 					return concStr(tt, string(rune(t.sval())))
 				}
